@@ -58,6 +58,7 @@ def run(chk: Check, proj: Project) -> None:
     s5_faithful(chk, proj)
     s5b_serialize_order(chk, proj)
     s6_container_loop(chk, proj)
+    s7_foreign_leaks(chk, proj)
 
 
 # ---------------------------------------------------------------------------------------------
@@ -539,6 +540,58 @@ def s5b_serialize_order(chk: Check, proj: Project) -> None:
     ok = bool(tr) and bool(pf) and max(tr) < min(pf) and "prefix-misplaced" not in order
     chk.ob("S5b", "util.tag_parser:TagValuePart.serialize:wrap-order", m.loc(f), ok, f"wrapping steps in order: {order}" if ok else
            f"the serialisation steps are {order}: a filter / spread prefix is applied before (inside) the translation wrapper, so `name|default:_(\"x\")` serialises to text that re-parses to different arguments")
+
+
+def _django_leaky_helpers() -> Dict[str, str]:
+    """Methods of django.template.base.Token that can let StopIteration escape: a bare `next(it)` outside any try (read
+    from the installed Django source, parsed, not imported)."""
+    import importlib.util
+
+    spec = importlib.util.find_spec("django.template.base")
+    if spec is None or not spec.origin:
+        raise AnalysisError("django.template.base not found")
+    tree = ast.parse(open(spec.origin).read())
+    out: Dict[str, str] = {}
+    for c in [x for x in ast.walk(tree) if isinstance(x, ast.ClassDef) and x.name == "Token"]:
+        for fn in [x for x in c.body if isinstance(x, ast.FunctionDef)]:
+            for par in ast.walk(fn):
+                for ch in ast.iter_child_nodes(par):
+                    ch.parent = par  # type: ignore[attr-defined]
+            for call in [x for x in ast.walk(fn) if isinstance(x, ast.Call) and isinstance(x.func, ast.Name) and x.func.id == "next" and len(x.args) == 1]:
+                p_ = call
+                guarded = False
+                while p_ is not None and p_ is not fn:
+                    if isinstance(p_, ast.Try):
+                        guarded = True
+                    p_ = getattr(p_, "parent", None)
+                if not guarded:
+                    out[fn.name] = f"Token.{fn.name} line {call.lineno}: bare next() - StopIteration escapes when the tag text ends early (e.g. an unterminated `_(\"...\"`)"
+    return out
+
+
+def s7_foreign_leaks(chk: Check, proj: Project) -> None:
+    chk.rule("S7", "Django helpers that can leak a non-TemplateSyntaxError exception on malformed tag text (derived from the installed Django source: bare next() in Token methods) are called only inside a try that converts it to TemplateSyntaxError")
+    leaky = _django_leaky_helpers()
+    chk.extra["django_leaky_token_methods"] = leaky
+    n = 0
+    for m, q, f in proj.all_funcs():
+        for c in [x for x in body_walk(f) if isinstance(x, ast.Call) and isinstance(x.func, ast.Attribute) and x.func.attr in leaky]:
+            n += 1
+            chk.analysed(f"{m.name}:{q}")
+            ok = False
+            for a in ancestors(c):
+                if isinstance(a, ast.Try) and any(c is y for st in a.body for y in ast.walk(st)):
+                    for h in a.handlers:
+                        types_ = [norm(t) for t in (h.type.elts if isinstance(h.type, ast.Tuple) else [h.type])] if h.type is not None else ["BaseException"]
+                        if any(t.split(".")[-1] in ("StopIteration", "Exception", "BaseException") for t in types_) and any(isinstance(r, ast.Raise) and exc_class_of_raise(r) == "TemplateSyntaxError" for r in ast.walk(h)):
+                            ok = True
+                if a is f:
+                    break
+            chk.ob("S7", f"{m.name.replace('django_components.', '')}:{q}:{short(c)}:leak-converted", m.loc(c), ok,
+                   f"`{short(c)}` is wrapped: StopIteration becomes TemplateSyntaxError" if ok else
+                   f"`{short(c)}` can raise StopIteration ({leaky[c.func.attr]}): `{{% component \"x\" _(\"abc\" %}}` makes Template(source) fail with StopIteration instead of TemplateSyntaxError")
+    if leaky:
+        chk.floor("S7", n, 1)
 
 
 def s6_container_loop(chk: Check, proj: Project) -> None:
